@@ -412,6 +412,42 @@ fn c01_like(tier: Tier, oracles: Oracles, with_drop: bool) -> Vec<Scenario> {
         sc.oracles.probe_after_commit = None;
         out.push(sc);
     }
+    // binary keys (bytes 0x00, 0x7f, 0x80, 0xff), keys that are prefixes of each other, values of 0 and
+    // 1 byte, a key equal to a bucket name
+    {
+        let bkeys = ["0x00", "0x0000", "0x7f", "0x80", "0x80ff", "0xff", "0xff00", "a", "ab", "abc"];
+        let mut setup_ops = vec![OpSpec::bucket("create", &[], "bin"), OpSpec::bucket("create", &["bin"], "0x80aa")];
+        for k in bkeys {
+            setup_ops.push(OpSpec::put(&["bin"], k, "w*300"));
+        }
+        let mut bops = vec![];
+        for k in ["0x00", "0x7f", "0x80", "0xff", "ab", "0x80aa", "0xffff"] {
+            for v in ["", "z", "w*300"] {
+                bops.push(OpSpec::put(&["bin"], k, v));
+            }
+            bops.push(OpSpec::del(&["bin"], k));
+        }
+        bops.push(OpSpec::bucket("goc", &["bin"], "0x80"));
+        bops.push(OpSpec::bucket("delb", &["bin"], "0x80aa"));
+        bops.push(OpSpec::bucket("create", &["bin"], "0xff01"));
+        bops.push(OpSpec::put(&["bin", "0x80aa"], "0x80aa", "z"));
+        let mut sc = Scenario::new("binary-and-prefix-keys-m1", Cfg::default(), vec![tx(setup_ops), Action::Reopen], Box::new(txs_of(&bops, 1, with_drop, true)), if q { 2 } else { 3 }, oracles);
+        sc.extra_probes = vec![blob("0x7fff"), blob("0x8000"), blob("0xfe"), blob("aa")];
+        out.push(sc);
+    }
+    // 150 keys sharing a 180-byte prefix (separators differ only in their last bytes)
+    if oracles.probe_each_op.is_none() {
+        let key = |i: usize| format!("{}{:04}", "commonprefix-".repeat(14), i * 7);
+        let mut acts: Vec<Action> = vec![Action::Reopen];
+        acts.push(tx((0..150).map(|i| OpSpec::put(&["pf"], &key(i), "v*40")).collect()));
+        acts.push(tx((0..150).step_by(2).map(|i| OpSpec::del(&["pf"], &key(i))).collect()));
+        acts.push(tx((0..150).step_by(3).map(|i| OpSpec::put(&["pf"], &key(i), "w*300")).collect()));
+        acts.push(tx((75..150).map(|i| OpSpec::del(&["pf"], &key(i))).collect()));
+        acts.push(tx(vec![OpSpec::put(&["pf"], &format!("{}x", "commonprefix-".repeat(14)), "z"), OpSpec::put(&["pf"], &"commonprefix-".repeat(13), "")]));
+        let mut sc = Scenario::new("long-common-prefix", Cfg::default(), vec![tx(vec![OpSpec::bucket("create", &[], "pf")])], Box::new(acts), if q { 3 } else { 4 }, oracles);
+        sc.oracles.probe_in_tx_end = None;
+        out.push(sc);
+    }
     // five levels of nesting: operations at the two deepest levels, deleting ancestors
     {
         let deep_setup = vec![tx(vec![
